@@ -11,10 +11,13 @@ import (
 
 type Value struct{ v atomic.Value }
 
-func (v *Value) Load() any { vhook.Point(vhook.KAtomic, v); return v.v.Load() }
-func (v *Value) Store(x any) { vhook.Point(vhook.KAtomic, v); v.v.Store(x) }
+func (v *Value) Load() any      { vhook.Point(vhook.KAtomic, v); return v.v.Load() }
+func (v *Value) Store(x any)    { vhook.Point(vhook.KAtomic, v); v.v.Store(x) }
 func (v *Value) Swap(x any) any { vhook.Point(vhook.KAtomic, v); return v.v.Swap(x) }
-func (v *Value) CompareAndSwap(o, n any) bool { vhook.Point(vhook.KAtomic, v); return v.v.CompareAndSwap(o, n) }
+func (v *Value) CompareAndSwap(o, n any) bool {
+	vhook.Point(vhook.KAtomic, v)
+	return v.v.CompareAndSwap(o, n)
+}
 
 type Int32 = atomic.Int32
 type Int64 = atomic.Int64
@@ -22,28 +25,61 @@ type Uint32 = atomic.Uint32
 type Uint64 = atomic.Uint64
 type Bool = atomic.Bool
 
-func AddInt32(a *int32, d int32) int32 { vhook.Point(vhook.KAtomic, a); return atomic.AddInt32(a, d) }
-func LoadInt32(a *int32) int32 { vhook.Point(vhook.KAtomic, a); return atomic.LoadInt32(a) }
-func StoreInt32(a *int32, v int32) { vhook.Point(vhook.KAtomic, a); atomic.StoreInt32(a, v) }
+func AddInt32(a *int32, d int32) int32  { vhook.Point(vhook.KAtomic, a); return atomic.AddInt32(a, d) }
+func LoadInt32(a *int32) int32          { vhook.Point(vhook.KAtomic, a); return atomic.LoadInt32(a) }
+func StoreInt32(a *int32, v int32)      { vhook.Point(vhook.KAtomic, a); atomic.StoreInt32(a, v) }
 func SwapInt32(a *int32, v int32) int32 { vhook.Point(vhook.KAtomic, a); return atomic.SwapInt32(a, v) }
-func CompareAndSwapInt32(a *int32, o, n int32) bool { vhook.Point(vhook.KAtomic, a); return atomic.CompareAndSwapInt32(a, o, n) }
-func AddInt64(a *int64, d int64) int64 { vhook.Point(vhook.KAtomic, a); return atomic.AddInt64(a, d) }
-func LoadInt64(a *int64) int64 { vhook.Point(vhook.KAtomic, a); return atomic.LoadInt64(a) }
-func StoreInt64(a *int64, v int64) { vhook.Point(vhook.KAtomic, a); atomic.StoreInt64(a, v) }
+func CompareAndSwapInt32(a *int32, o, n int32) bool {
+	vhook.Point(vhook.KAtomic, a)
+	return atomic.CompareAndSwapInt32(a, o, n)
+}
+func AddInt64(a *int64, d int64) int64  { vhook.Point(vhook.KAtomic, a); return atomic.AddInt64(a, d) }
+func LoadInt64(a *int64) int64          { vhook.Point(vhook.KAtomic, a); return atomic.LoadInt64(a) }
+func StoreInt64(a *int64, v int64)      { vhook.Point(vhook.KAtomic, a); atomic.StoreInt64(a, v) }
 func SwapInt64(a *int64, v int64) int64 { vhook.Point(vhook.KAtomic, a); return atomic.SwapInt64(a, v) }
-func CompareAndSwapInt64(a *int64, o, n int64) bool { vhook.Point(vhook.KAtomic, a); return atomic.CompareAndSwapInt64(a, o, n) }
-func AddUint32(a *uint32, d uint32) uint32 { vhook.Point(vhook.KAtomic, a); return atomic.AddUint32(a, d) }
-func LoadUint32(a *uint32) uint32 { vhook.Point(vhook.KAtomic, a); return atomic.LoadUint32(a) }
+func CompareAndSwapInt64(a *int64, o, n int64) bool {
+	vhook.Point(vhook.KAtomic, a)
+	return atomic.CompareAndSwapInt64(a, o, n)
+}
+func AddUint32(a *uint32, d uint32) uint32 {
+	vhook.Point(vhook.KAtomic, a)
+	return atomic.AddUint32(a, d)
+}
+func LoadUint32(a *uint32) uint32     { vhook.Point(vhook.KAtomic, a); return atomic.LoadUint32(a) }
 func StoreUint32(a *uint32, v uint32) { vhook.Point(vhook.KAtomic, a); atomic.StoreUint32(a, v) }
-func SwapUint32(a *uint32, v uint32) uint32 { vhook.Point(vhook.KAtomic, a); return atomic.SwapUint32(a, v) }
-func CompareAndSwapUint32(a *uint32, o, n uint32) bool { vhook.Point(vhook.KAtomic, a); return atomic.CompareAndSwapUint32(a, o, n) }
-func AddUint64(a *uint64, d uint64) uint64 { vhook.Point(vhook.KAtomic, a); return atomic.AddUint64(a, d) }
-func LoadUint64(a *uint64) uint64 { vhook.Point(vhook.KAtomic, a); return atomic.LoadUint64(a) }
+func SwapUint32(a *uint32, v uint32) uint32 {
+	vhook.Point(vhook.KAtomic, a)
+	return atomic.SwapUint32(a, v)
+}
+func CompareAndSwapUint32(a *uint32, o, n uint32) bool {
+	vhook.Point(vhook.KAtomic, a)
+	return atomic.CompareAndSwapUint32(a, o, n)
+}
+func AddUint64(a *uint64, d uint64) uint64 {
+	vhook.Point(vhook.KAtomic, a)
+	return atomic.AddUint64(a, d)
+}
+func LoadUint64(a *uint64) uint64     { vhook.Point(vhook.KAtomic, a); return atomic.LoadUint64(a) }
 func StoreUint64(a *uint64, v uint64) { vhook.Point(vhook.KAtomic, a); atomic.StoreUint64(a, v) }
-func SwapUint64(a *uint64, v uint64) uint64 { vhook.Point(vhook.KAtomic, a); return atomic.SwapUint64(a, v) }
-func CompareAndSwapUint64(a *uint64, o, n uint64) bool { vhook.Point(vhook.KAtomic, a); return atomic.CompareAndSwapUint64(a, o, n) }
-func AddUintptr(a *uintptr, d uintptr) uintptr { vhook.Point(vhook.KAtomic, a); return atomic.AddUintptr(a, d) }
-func LoadUintptr(a *uintptr) uintptr { vhook.Point(vhook.KAtomic, a); return atomic.LoadUintptr(a) }
+func SwapUint64(a *uint64, v uint64) uint64 {
+	vhook.Point(vhook.KAtomic, a)
+	return atomic.SwapUint64(a, v)
+}
+func CompareAndSwapUint64(a *uint64, o, n uint64) bool {
+	vhook.Point(vhook.KAtomic, a)
+	return atomic.CompareAndSwapUint64(a, o, n)
+}
+func AddUintptr(a *uintptr, d uintptr) uintptr {
+	vhook.Point(vhook.KAtomic, a)
+	return atomic.AddUintptr(a, d)
+}
+func LoadUintptr(a *uintptr) uintptr     { vhook.Point(vhook.KAtomic, a); return atomic.LoadUintptr(a) }
 func StoreUintptr(a *uintptr, v uintptr) { vhook.Point(vhook.KAtomic, a); atomic.StoreUintptr(a, v) }
-func SwapUintptr(a *uintptr, v uintptr) uintptr { vhook.Point(vhook.KAtomic, a); return atomic.SwapUintptr(a, v) }
-func CompareAndSwapUintptr(a *uintptr, o, n uintptr) bool { vhook.Point(vhook.KAtomic, a); return atomic.CompareAndSwapUintptr(a, o, n) }
+func SwapUintptr(a *uintptr, v uintptr) uintptr {
+	vhook.Point(vhook.KAtomic, a)
+	return atomic.SwapUintptr(a, v)
+}
+func CompareAndSwapUintptr(a *uintptr, o, n uintptr) bool {
+	vhook.Point(vhook.KAtomic, a)
+	return atomic.CompareAndSwapUintptr(a, o, n)
+}
